@@ -328,16 +328,6 @@ def movieOf (file : Bytes) (dropMeta : Bool) : String :=
 
 /-! ### C06 -/
 /-- |x·90000 − n| ≤ 1 for the finite non-negative double `x`, exactly -/
-def within1Tick (x : F64) (n : Nat) : Bool :=
-  match x with
-  | .fin false mant e =>
-    let (a, b) := F64.frac mant e      -- x = a/b
-    -- |a*90000/b - n| ≤ 1  ⇔  |a*90000 - n*b| ≤ b
-    let l := a * 90000
-    let r := n * b
-    (if l ≥ r then l - r else r - l) ≤ b
-  | _ => false
-
 def oracleC06 (c : PCase) (ops : List (List String)) (o : PObs) : Bool :=
   let zr := List.zip ops o.replies
   -- index of the first successful finish
